@@ -358,7 +358,7 @@ structure StreamCfg where
   deriving Repr, DecidableEq
 
 /-- /repo/encoder/stream.go as it is now -/
-def pinnedStreamCfg : StreamCfg := ⟨false⟩
+def pinnedStreamCfg : StreamCfg := ⟨true⟩
 
 /-- the start of `WriteMessage`: the file header is written when it is due (first use, or right after `SequenceCompleted`) -/
 def Stream.ensureHeader (F : Faults) (h : Hdr) (s : Stream) : Stream × Bool :=
